@@ -1,6 +1,7 @@
 """Verify one C function against its sidecar contract: build the entry state, explore all paths, collect obligations,
 discharge them with z3, turn counter-models into witnesses."""
 import os
+import re
 import time
 import traceback
 
@@ -59,6 +60,13 @@ class FunctionRun:
                 f.params[p['name']] = (v, ct)
         ctx = e.clause_ctx(f, 'post')
         tr = Translator(ctx, self.reg.defs)
+        # ghost parameters of the contract: fresh symbols constrained only by `requires`
+        for ln, ldef in c.logical.items():
+            m = re.match(r'^fresh:([ui])(\d+)$', ldef.strip())
+            if m:
+                v = z3.BitVec(ln, int(m.group(2)))
+                f.logical[ln] = TV(v, m.group(1) == 'i')
+                info['ints'][ln] = (v, m.group(1) == 'i')
         for p in params:
             ct = self.tu.ctype(p['type'])
             name = p['name']
@@ -66,6 +74,12 @@ class FunctionRun:
                 continue
             if ct.kind != 'ptr':
                 raise Unsupported('parameter %s of type %r' % (name, ct))
+            if ct.to.kind == 'func':
+                tgt = self.config.get('funcptr', {}).get(name)
+                if tgt is None:
+                    raise Unsupported('no target configured for function-pointer parameter %s' % name)
+                f.params[name] = (FuncPtr(tgt), ct)
+                continue
             if name in self.config.get('null', []):
                 f.params[name] = (NULL, ct)
                 continue
@@ -82,7 +96,8 @@ class FunctionRun:
                 continue
             self.make_nested(path, spec, tr, info)
         for ln, ldef in c.logical.items():
-            f.logical[ln] = tr.expr(ldef)
+            if ln not in f.logical:
+                f.logical[ln] = tr.expr(ldef)
         for p in params:
             e.bind_param(f, p, f.params[p['name']][0]) if p.get('name') in f.params else None
         # parameters that are modified keep their entry value in f.params
@@ -148,6 +163,13 @@ class FunctionRun:
             e.st.mem[cell.id] = FuncPtr(kind[1], abstract=True)
         elif kind[0] == 'alias':
             e.st.mem[cell.id] = tr.expr(kind[1])
+        elif kind[0] == 'into':
+            tgt = tr.expr(kind[1])
+            if not isinstance(tgt, Ptr) or tgt.region is None:
+                raise Unsupported('shape into: target')
+            off = z3.BitVec(path + '.off', 64)
+            info['ints'][path + '.off'] = (off, False)
+            e.st.mem[cell.id] = Ptr(tgt.region, off)
         elif kind[0] == 'null':
             e.st.mem[cell.id] = NULL
         else:
@@ -383,7 +405,10 @@ def verify_function(tu, reg, fname, prop='CVC', timeout_ms=None, kinds=None, rep
             runs.append(run)
             obligations += run.eng.obligations
             if run.returns == 0:
-                return und('no path of %s reaches a return (contradictory contract?)' % fname, 'error')
+                results.append({'id': rid('vacuity', 'return_reachable.' + run.eng.config), 'kind': 'vacuity',
+                                'clause': 'some path of %s reaches a return' % fname, 'status': 'undecided', 'backend': 'cvc', 'seconds': 0,
+                                'detail': 'no explored path reaches a return (loop exit infeasible under the invariant, or contradictory contract)',
+                                'witness': None, 'replayed': False})
     except (Unsupported, ClauseError) as ex:
         return und('%s: %s' % (type(ex).__name__, ex))
     except FrontEndError as ex:
